@@ -7,7 +7,10 @@ def b9(b):
     vals = []
     # boundary values, neighbours of b, and two structural values: '.' (label / token separator inside names) and
     # 0x40 (first length above the 63-octet label limit; with 0x3f = b9(0x40)'s neighbour)
-    for v in (0x00, 0x01, 0x7f, 0x80, 0xff, b ^ 0x01, b ^ 0x80, (b + 1) & 0xff, (b - 1) & 0xff, 0x2e, 0x40):
+    cands = (0x00, 0x01, 0x7f, 0x80, 0xff, b ^ 0x01, b ^ 0x80, (b + 1) & 0xff, (b - 1) & 0xff, 0x2e, 0x40)
+    if 0x41 <= b <= 0x5a or 0x61 <= b <= 0x7a:
+        cands += (b ^ 0x20,)       # the other letter case (names that are case-insensitive on the wire)
+    for v in cands:
         if v != b and v not in vals:
             vals.append(v)
     return vals
